@@ -56,4 +56,7 @@ def firstIdx (p : BitVec 8 → Bool) : Bytes → Option Nat
   | [] => none
   | b :: bs => if p b then some 0 else (firstIdx p bs).map (· + 1)
 
+/-- no NUL byte -/
+def noNul (s : Bytes) : Bool := s.all (fun b => b != 0#8)
+
 end Dlt
